@@ -231,3 +231,45 @@ Example v1_cont_inhabited :
   pre_c ls' = pre_c ls /\
   pre_c ls = Some [{| n_text := [CChr 1; CSp; CChr 2; CSp; CChr 3]; n_number := 3; n_ind := 0 |}].
 Proof. split; vm_compute; reflexivity. Qed.
+
+(* ------------------------------------------------------------------------------------ *)
+(* the pending comment *)
+
+Lemma pre_cm_go_shift :
+  forall ls i j cm, map unnumbered_cm (pre_cm_go i cm ls) = map unnumbered_cm (pre_cm_go j cm ls).
+Proof.
+  induction ls as [|l r IH]; intros i j cm; simpl; [reflexivity|].
+  destruct (strip l) as [|c s]; [apply IH|].
+  destruct c; simpl; try apply IH; f_equal; apply IH.
+Qed.
+
+(* a blank line (possibly holding whitespace) ANYWHERE - also between a comment and the
+   statement it belongs to, or between two comment lines - changes neither the statements
+   nor the comment attached to each of them *)
+Theorem v1_blank_cm :
+  forall a ws b, forallb is_wsc ws = true ->
+    map unnumbered_cm (pre_cm (a ++ ws :: b)) = map unnumbered_cm (pre_cm (a ++ b)).
+Proof.
+  intros a ws b H. unfold pre_cm. generalize 0 as i. generalize (@None (list (list ch))) as cm.
+  induction a as [|l a IH]; intros cm i; simpl.
+  - rewrite (strip_all_ws ws H). apply pre_cm_go_shift.
+  - destruct (strip l) as [|c s]; [apply IH|].
+    destruct c; simpl; try apply IH; f_equal; apply IH.
+Qed.
+
+(* the statements of pre_cm are those of pre *)
+Lemma pre_cm_go_fst : forall ls i cm, map fst (pre_cm_go i cm ls) = pre_go i ls.
+Proof.
+  induction ls as [|l r IH]; intros i cm; simpl; [reflexivity|].
+  destruct (strip l) as [|c s]; [apply IH|].
+  destruct c; simpl; try apply IH; f_equal; apply IH.
+Qed.
+
+Theorem pre_cm_fst : forall ls, map fst (pre_cm ls) = pre ls.
+Proof. intros ls. apply pre_cm_go_fst. Qed.
+
+Example v1_blank_cm_inhabited :
+  let a := [[CChr 9]; [CSp; CSp; CHash; CSp; CChr 1]] in
+  let b := [[CSp; CSp; CChr 3]] in
+  map unnumbered_cm (pre_cm (a ++ [CSp; CTab] :: b)) = [([CChr 9], 0, None); ([CChr 3], 2, Some [[CChr 1]])].
+Proof. reflexivity. Qed.
